@@ -10,6 +10,7 @@ def run(ctx):
     bytesacct.rule_reader(ctx, 'R05.5')
     serial.rule_size_switch(ctx, 'R05.8')
     serial.rule_tree_predicate(ctx, 'R05.7')   # the restored simulation rebuilds the tree iff a module needs it
-    from . import c06
+    from . import c06, c17
+    c17.rule_accumulation(ctx, 'R06.6')   # appended snapshots are deltas: a field counts as changed when any element differs
     c06.rule_reader(ctx)      # R06.3/4: the index of an archive is complete (satisfiable growth) and a snapshot is first + delta
     ctx.not_decided.append('that the persisted set is sufficient for bitwise continuation of every integrator; padding bytes; the continuation itself (runtime)')
